@@ -52,6 +52,19 @@ Theorem C05_interp_eval_order :
                forall tr, ev err_text self E en tr = (RVal [VStr (v ++ tail_val lit_val tl td)], en, tr ++ te).
 Proof. exact interp_correct. Qed.
 
+(* the property in its own words: the interpolated literal, as split by the parser and lowered by the
+   compiler, evaluates exactly like the explicit concatenation  "" + s0 + "$" + s1 + conv(e1) + ...
+   (same value, same environment, same effect trace), for every well-formed literal *)
+Theorem C05_interp_eq_explicit :
+  forall (err_text : err -> str) (self : stmt -> env -> trace -> sres) (lit_val : str -> str),
+  (forall a b, lit_val (a ++ dollar :: b) = lit_val a ++ dollar :: lit_val b) -> lit_val [] = [] ->
+  forall (parse : str -> ty * expr) en l tl td v te,
+  wf l tl -> l <> [] -> items_sem err_text self lit_val parse en l v te ->
+  exists ps E, split_lit (render l tl td) = Ok (Some ps, None) /\
+               lower_interp lit_val (map (cpart_of parse (render l tl td)) ps) = Some E /\
+               forall tr, ev err_text self E en tr = ev err_text self (explicit_concat lit_val parse l tl td) en tr.
+Proof. exact interp_eq_explicit. Qed.
+
 (* operands built from constants, variables, probe calls and arithmetic satisfy the operand
    hypothesis of items_sem (so the theorems above are not vacuous) *)
 Theorem C05_pure_operand : forall err_text self en e v t, pure_eval en e v t ->
@@ -89,5 +102,6 @@ Print Assumptions C05_split_render.
 Print Assumptions C05_split_plain.
 Print Assumptions C05_interp_value.
 Print Assumptions C05_interp_eval_order.
+Print Assumptions C05_interp_eq_explicit.
 Print Assumptions C05_pure_operand.
 Print Assumptions C05_interp_bool_refuted.
